@@ -440,3 +440,12 @@ Proof. exact demo3. Qed.
 Example c02_ensure_hypotheses_satisfiable :
   MemSound w_ens_state /\ log_has_ws 0 (s_log (d_st w_ens_state)) = true /\ validate (s_log (d_st w_ens_state)) = true.
 Proof. exact mem_sound_demo. Qed.
+
+(* T1: what the two searches look at, read off the source on every run (Gen/Effects.v): in ensure_default the log
+   scan is on the straight-line path behind the in-memory index hit (no test of what is on disk before it) - the
+   model's `ensure false`; the filter closure of provider_cursor_rotate_v1 compares the recorded endpoint / model
+   with `Some(filter)` - the model's `rot_match false` *)
+Theorem c02_generated_decisions_are_the_models :
+  gen_ensure_scans_the_log_whenever_memory_misses = true /\ gen_rotate_filters_reject_absent_fields = true.
+Proof. exact (andb_prop _ _ gen_decisions_ok). Qed.
+Print Assumptions c02_generated_decisions_are_the_models.
